@@ -91,7 +91,7 @@ SPEC = {
         "which transform lists are not invertible is decided by the harness from the computed style (translate / scale / matrix functions with small integer linear parts: a factor with determinant 0), not read back from /repo's matrix code",
     ],
     "not_modelled": [
-        "table internals: drawTable's layered backgrounds and collapsed borders (tables are excluded from generated documents; a tree containing a table / cell / row box is skipped, code 2)",
+        "table internals: drawTable's layered backgrounds, cell borders and collapsed borders (the model stands for them by one TableLayers event, dropped before the comparison; generated tables have no background / border on any table part; a tree with a decorated table part is skipped, code 2). The dispatch bookkeeping of cells (blocksAndCells only) and their step-7 content ARE modelled and compared",
         "what a background / border / text / outline paints (colours, geometry, images, border styles): an event is the identity of the box only",
         "draw.go 216-243: viewport overflow propagated to the root element and the `clip` property of absolutely positioned boxes",
         "replaced content and list markers are in the model (Content events) but not in the generated documents",
@@ -99,7 +99,8 @@ SPEC = {
     ],
     "codes": {
         "1": "the sequence of fills / texts / Push-Pop that reached the page (events painted on a group that is never composited are lost) differs from the model's paint(from_page ...) on the same laid-out tree",
-        "2": "tree contains table boxes (not modelled), skipped",
+        "2": "tree contains a table part (table, row group, row, cell, column) with a visible background or border (drawTable's layers are not modelled), skipped",
+        "10": "tree with a table: the TEXT events (Appendix E step 7: line content of blocks and table cells, in tree order) that reached the page are not in the model's order",
         "3": "the model panics (drawInlineLevel 'unexpected box') but the implementation did not",
         "4": "the implementation panicked while drawing; the model does not",
         "5": "implementation = model, but both differ from Appendix E instantiated with the implementation's stacking contexts (contradicts C16_paint_page_spec unless the tree is outside wf_shape)",
@@ -112,10 +113,10 @@ SPEC = {
         "gen": "C16_paint_page_spec / C16_paint_order_spec / C16_stable_partition_sort / C16_singular_confined",
         "corpus": "C16_paint_page_spec / C16_paint_order_spec / C16_stable_partition_sort",
     },
-    "rule": "SplitMix64-seeded generator of documents: nests (depth <= 7, 3-40 elements) of div / span / inline-block / inline-flex / flex / floats with position (relative, absolute, fixed), z-index drawn from multisets with ties, negatives, 0 and auto (also on non-positioned boxes), opacity, transform (translations, and non-invertible matrices scale(0) / scale(1,0) / matrix(1,2,2,4,0,0) ... alone, with opacity < 1 (the hidden state opacity+scale(0)) and with overflow, on boxes with content and with boxes painted after them), overflow, outlines, blocks inside inlines, negative margins (overlap), z-index on the root element, a page margin box; every element has unique background / border / text / outline colours; one case per rendered page; regression corpus corpus/C16/*.html first; non-trivial = at least two boxes forming stacking contexts; distinct by Coq term",
+    "rule": "SplitMix64-seeded generator of documents: nests (depth <= 7, 3-40 elements) of div / span / inline-block / inline-flex / flex / floats with position (relative, absolute, fixed), z-index drawn from multisets with ties, negatives, 0 and auto (also on non-positioned boxes), opacity, transform (translations, and non-invertible matrices scale(0) / scale(1,0) / matrix(1,2,2,4,0,0) ... alone, with opacity < 1 (the hidden state opacity+scale(0)) and with overflow, on boxes with content and with boxes painted after them), overflow, outlines, blocks inside inlines, negative margins (overlap), z-index on the root element, a page margin box, simple tables (1-2 rows of 1-3 cells without backgrounds / borders on table parts, cells holding text and generated blocks, some cells positioned / with opacity, captions, blocks before, inside and after the table); every element has unique background / border / text / outline colours; one case per rendered page; regression corpus corpus/C16/*.html first; non-trivial = at least two boxes forming stacking contexts; distinct by Coq term",
 }
 MANIFEST = {
     "text": "Coq theorems over an executable port of NewStackingContext / NewStackingContextFromBox / drawStackingContext: for every well-shaped box tree paint(from_box b) = CSS 2.1 Appendix E (C16_paint_order_spec, C16_paint_page_spec: own background+border, negative-z contexts ascending with ties in tree order, in-flow blocks, floats atomically, inline content with inline-blocks atomic, positioned z-auto/0 and opacity/transform contexts in tree order, positive-z ascending, outlines; opacity/transform bracket the whole sub-tree, overflow clip its content; a box with a non-invertible transform paints nothing of its sub-tree and changes nothing else: C16_singular_confined), the three context lists are the spec's classes in (z, tree) order for ANY function meeting sort.SliceStable's contract (C16_stable_partition_sort, C16_stable_sort_unique), no panic, background immediately before border, Push/Pop balanced; the model is compared on every run with the event sequence /repo's real pipeline sends to a recording backend for generated documents with uniquely coloured boxes",
-    "note": "Trusted: Coq kernel (vm_compute), sort.SliceStable contract, Go harness projection (box tree -> abstract tree, trace -> events), hook html/document/verif_export_c16.go. Partial: overflow != visible is taken to form a stacking context as the implementation does (deviation from CSS reported as known finding C16/overflow-forms-stacking-context, code 6); every_box_painted_once / per_box_order (beyond bg-before-border) / exact bracket contents are stated (Definition ..._statement) and proved only in part; tables not modelled.",
+    "note": "Trusted: Coq kernel (vm_compute), sort.SliceStable contract, Go harness projection (box tree -> abstract tree, trace -> events), hook html/document/verif_export_c16.go. Partial: overflow != visible is taken to form a stacking context as the implementation does (deviation from CSS reported as known finding C16/overflow-forms-stacking-context, code 6); every_box_painted_once / per_box_order (beyond bg-before-border) / exact bracket contents are stated (Definition ..._statement) and proved only in part; drawTable's layers not modelled (tables compared on everything else).",
     "technique": "Coq proof over executable model + vm_compute correspondence with the Go implementation",
 }
